@@ -1,9 +1,10 @@
 (* C01 and C04 for object graphs.  For EVERY graph of structs whose fields are integers of any
-   Go kind, booleans, strings and pointers to structs - any number of objects, any depth, with
-   arbitrary sharing and cycles - what the encoder model writes, the decoder model reads back as
-   the same graph: every object becomes one heap cell holding the same scalars under the same
-   field names, and every pointer becomes the index of the cell of the object it pointed to, so
-   that two pointers are equal after decoding exactly when they were equal before.
+   Go kind, booleans, strings, float64s, byte slices, timestamps and pointers to structs - any
+   number of objects, any depth, with arbitrary sharing and cycles - what the encoder model
+   writes, the decoder model reads back as the same graph: every object becomes one heap cell
+   holding the same values under the same field names (a float64 as the same number, a
+   timestamp to the millisecond), and every pointer becomes the index of the cell of the object
+   it pointed to, so that two pointers are equal after decoding exactly when they were before.
 
    Both models are tied to /repo on every run (encoder byte for byte, decoder value for value,
    on the zoo and on every small pointer graph).  Hypotheses (relation sgv): each struct type has
